@@ -150,6 +150,19 @@ def leaf_cases(C, M, F):
     def _():
         return M.DenseDefiniteMatrix(-1 * F.array("a", "n", "n", sym=True, pd=True), is_posdef=False), {"sym": True}
 
+    # a triangular factor SUPPLIED by the caller, of either orientation: the library's convention is array == sign * factor @ factor.T whichever
+    # triangle the factor occupies (an upper factor U means U U^T -- not scipy's U^T U)
+    for lower in (True, False):
+        @case(f"DensePositiveDefiniteMatrix[given TriangularMatrix factor, lower={lower}]")
+        def _(lower=lower):
+            t = F.array("t", "n", "n", tri="lower" if lower else "upper")
+            return M.DensePositiveDefiniteMatrix(t @ t.T, factor=M.TriangularMatrix(t, lower=lower, make_triangular=False)), {"sym": True, "pd": True}
+
+    @case("DenseDefiniteMatrix[negative definite, given upper TriangularMatrix factor]")
+    def _():
+        t = F.array("t", "n", "n", tri="upper")
+        return M.DenseDefiniteMatrix(-1 * (t @ t.T), factor=M.TriangularMatrix(t, lower=False, make_triangular=False), is_posdef=False), {"sym": True}
+
     @case("DenseSquareMatrix[lazy LU]")
     def _():
         return M.DenseSquareMatrix(F.array("a", "n", "n", inv=True)), {}
